@@ -26,7 +26,7 @@ RANDOM_OPTIONS = ['init.random_initial_directions', 'growing.perturb_trust_regio
                   'restarts.increase_npt', 'growing.num_new_dirns_each_iter', 'growing.safety.do_safety_step(growing)']
 
 
-def install_stubs(E, C, M, params, n, m, log, xr, nsample_mode, rec):
+def install_stubs(E, C, M, params, n, m, log, xr, nsample_mode, rec, xr_g=None):
     """contract stubs; `rec` collects ghost information (evaluate_objective calls, rng use, callback results)"""
     Model = E.get('Model')
     Controller = E.get('Controller')
@@ -72,7 +72,8 @@ def install_stubs(E, C, M, params, n, m, log, xr, nsample_mode, rec):
         xn = xopt + d
         # contract of the subproblem solvers (C12/C13): the step stays inside the box
         E.assume(E.all([self.model.sl[i] <= xn[i] for i in range(n)] + [xn[i] <= self.model.su[i] for i in range(n)]))
-        return d, E.vec('g', n), E.mat('H', n, n), E.vec('gn', n), E.real('crvmin')
+        # (with bad objective values the model gradient J^T r can overflow although the fit succeeded: gopt is NaN / +-inf / a number)
+        return d, E.vec('g', n, xr=(xr if xr_g is None else xr_g)), E.mat('H', n, n), E.vec('gn', n), E.real('crvmin')
     E.patch_attr(Controller, 'trust_region_step', trust_region_step)
     E.patch_attr(Controller, 'evaluate_criticality_measure', lambda self, params: E.real('crit', lo=0))
 
@@ -178,7 +179,7 @@ def body(E, n, m, num_pts, npt_so_far, preset, with_h=False, xr=False, nsample_m
         # arbitrary Q of the stubbed QR it would make the orthogonalised direction 0 and the new point 0/0)
         E.assume_norms_positive(True)
     rec = {'evals': [], 'rng': [], 'cb': [], 'dyk': []}
-    nsamples = install_stubs(E, C, M, params, n, m, log, xr, nsample_mode, rec)
+    nsamples = install_stubs(E, C, M, params, n, m, log, xr, nsample_mode, rec, xr_g=(xr or fault == 'badg'))   # fault 'badg': only the model gradient is bad
     if proj:
         # general convex constraints: the model maps every point to user space through the alternating projection
         userP = lambda w: w
@@ -425,6 +426,86 @@ def _site(outcome, env):
     return "exit[%s]" % msg[:48]
 
 
+def body_action(E, action, n, m, nsample_hi, preset='soft-restarts', num_pts=None, npt_so_far=None):
+    """one Controller action (real code) from an arbitrary valid state: geometry_step / soft_restart / add_new_direction_while_growing"""
+    np = E.np
+    log = EvalLog()
+    objfun = mk_objfun(E, m, log)
+    num_pts = num_pts or n + 1
+    npt_so_far = npt_so_far or num_pts
+    C, M, ghost, params = mk_controller(E, n, m, num_pts, npt_so_far, preset=preset, objfun=objfun, kopt_minimal=False)
+    if preset.startswith('growing'):
+        E.assume_norms_positive(True)
+    rec = {'evals': [], 'rng': [], 'cb': [], 'dyk': []}
+    install_stubs(E, C, M, params, n, m, log, False, 'one', rec)
+    thr = M.min_objective_value()
+    E.assume(E.all([E.no(M.objval[k] <= thr) for k in range(npt_so_far)]))
+    pre_final = spec_final_obj(E, M)
+    old_records = [dict(g) for g in ghost]
+    for k, g in enumerate(old_records):
+        g['x'] = M.xpt(k, abs_coordinates=True)
+    if M.objsave is not None:
+        old_records.append({'x': M.xsave.copy(), 'mean': [M.rsave[j] for j in range(m)], 'cnt': M.nsamples_save, 'ev': M.eval_num_save})
+    nf0, nx0 = C.nf, C.nx
+    want = int(E.int('want', 1, nsample_hi))
+    rec['cb'].append(want)
+    exc = None
+    steps = []
+    if action == 'soft_restart':
+        mv = bool(E.is_true(E.bool('move_xk')))
+        ngs = int(E.int('num_geom_steps', 0, 4))
+        params.params["restarts.soft.move_xk"] = mv
+        params.params["restarts.soft.num_geom_steps"] = ngs
+        orig_gs = E.get('Controller').geometry_step
+
+        def gs(self, knew, adelt, number_of_samples, params_):
+            steps.append(int(knew))
+            return orig_gs(self, knew, adelt, number_of_samples, params_)
+        E.patch_attr(E.get('Controller'), 'geometry_step', gs)
+        nruns = E.int('nruns', 0, None)
+        E.assume(C.last_successful_run <= nruns)
+        kopt0 = int(M.kopt)
+        distinct = E.all([E.any([E.no(M.points[k, i] == M.points[kopt0, i]) for i in range(n)]) for k in range(npt_so_far) if k != kopt0])
+    try:
+        if action == 'geometry_step':
+            knew = int(E.int('knew', 0, npt_so_far - 1))
+            exit_info = C.geometry_step(knew, C.delta, want, params)
+        elif action == 'add_new_direction':
+            exit_info = C.add_new_direction_while_growing(want, params, min_num_steps=int(E.int('min_num_steps', 0, 1)))
+        else:
+            exit_info = C.soft_restart(want, nruns, params)
+    except (Stop, core.PathAbort):
+        raise
+    except Exception as e:     # noqa
+        E.fail('C07:%s:raises-%s' % (action, type(e).__name__), detail=str(e)[:160])
+        E.fail('C08:%s:raises-%s' % (action, type(e).__name__), detail=str(e)[:160])
+        return
+    calls = len(log.calls)
+    E.prove(E.all([C.nf - nf0 == calls, C.nf <= C.maxfun]), 'C02:%s:counters-and-budget' % action)
+    for ev in rec['evals']:
+        E.prove(ev['requested'] == want, 'C02:%s:sample-count-is-what-was-asked-for' % action)
+    news = new_records(E, M, log, rec, m)
+    allowed = old_records + news
+    for k in range(M.npt()):
+        xk = M.xpt(k, abs_coordinates=True)
+        E.prove(E.any([rec_equal(E, xk, M.fval_v[k, :], M.nsamples[k], M.eval_num[k], R, n, m) for R in allowed]),
+                'C03:%s:every-slot-holds-one-whole-evaluated-record' % action)
+    if M.objsave is not None:
+        E.prove(E.any([rec_equal(E, M.xsave, M.rsave, M.nsamples_save, M.eval_num_save, R, n, m) for R in allowed]),
+                'C03:%s:saved-slot-holds-one-whole-evaluated-record[%s]' % (action, 'exit' if exit_info is not None else 'ok'))
+        E.prove(E.same(M.objsave, objective(E, M, M.rsave, M.xsave)), 'C03:%s:saved-objective-is-F-of-saved-record' % action)
+    post = spec_final_obj(E, M)
+    if nsample_hi == 1:
+        E.prove(E.le(post, pre_final), 'C04:%s:best-value-never-increases' % action)
+        for R in news:
+            E.prove(E.le(post, R['obj']), 'C04:%s:not-worse-than-a-point-evaluated-here' % action)
+    if action == 'soft_restart' and exit_info is None:
+        avail = npt_so_far if mv else npt_so_far - 1
+        E.prove(len(steps) == min(ngs, avail), 'C07:soft_restart:performs-min(num_geom_steps,available-points)-geometry-steps')
+        if not mv:
+            E.prove(E.implies(distinct, all(k_ != kopt0 for k_ in steps[:1])), 'C07:soft_restart:incumbent-not-moved-first-when-move_xk-is-off')
+
+
 FUNCS = ['solver.solve_main', 'controller.Controller.evaluate_objective', 'controller.Controller.calculate_ratio',
          'controller.Controller.check_and_fix_geometry', 'controller.Controller.geometry_step', 'controller.Controller.reduce_rho',
          'controller.Controller.done_with_current_rho', 'controller.Controller.terminate_from_slow_iterations',
@@ -463,12 +544,14 @@ def step_harnesses(tier, seed, pid):
             combos.append(D + ('regression-geom', False, False, 'one', None))
         if pid == 'C18':
             combos.append(D + ('diagnostics', False, False, 'one', None))
+            combos.append((2, 1, 3, 2, 'growing-reduce-delta', False, False, 'one', None))
         if pid == 'C02':
-            combos.append(D + ('default', False, False, 2, None))
+            combos.append(D + ('regression-geom', False, False, 2, None))     # (contains every path of the default preset)
         if pid == 'C19':
             combos.append(D + ('regression-geom', False, False, 'one', None))
         if pid == 'C08':
-            combos = [D + ('default', False, True, 'one', None), D + ('default', False, False, 'one', 'raise'), D + ('default', False, False, 'one', 'raise1')]
+            combos = [D + ('default', False, True, 'one', None), D + ('default', False, False, 'one', 'raise'), D + ('default', False, False, 'one', 'raise1'),
+                      D + ('diagnostics', False, False, 'one', 'badg')]
     else:
         G = (2, 1, 3, 2)
         one = lambda preset, dims=D, h=False, xr=False, ns='one', fault=None: dims + (preset, h, xr, ns, fault)
@@ -486,7 +569,8 @@ def step_harnesses(tier, seed, pid):
             'C19': [one('default'), one('regression-geom'), one('growing-perturb', G), one('regression-momentum'), one('growing', G)],
             'C11': [one('default'), one('soft-restarts'), one('hard-restarts')],
             'C08': [one('default', xr=True), one('default', fault='raise'), one('default', fault='raise1'), one('soft-restarts', fault='raise'),
-                    one('soft-restarts', xr=True), one('noise', xr=True), one('default', h=True, xr=True)],
+                    one('soft-restarts', xr=True), one('noise', xr=True), one('default', h=True, xr=True), one('diagnostics', fault='badg'),
+                    one('diagnostics', xr=True)],
         }
         combos = THOROUGH.get(pid, [one('default'), one('soft-restarts')])
     if pid == 'C09':
@@ -505,6 +589,28 @@ def step_harnesses(tier, seed, pid):
                           assumptions=["INV: " + s for s in INV] + ["stub: " + s for s in STUBS],
                           expect=[], nproc=None, home='STEP', max_replays=3,
                           wall_budget=(600 if tier == 'quick' else 500)))
+    return hs
+
+
+def action_harnesses(tier, seed, pid):
+    hs = []
+    S, G = 'soft-restarts', 'growing-2dirs'
+    combos = [('geometry_step', 1, 1, 2, S, 2, 2), ('soft_restart', 1, 1, 1, S, 2, 2), ('soft_restart', 2, 1, 1, G, 3, 2), ('add_new_direction', 2, 1, 1, G, 3, 2)] \
+        if tier == 'quick' else \
+        [('geometry_step', 1, 1, 2, S, 2, 2), ('geometry_step', 2, 1, 2, S, 3, 3), ('geometry_step', 1, 1, 3, S, 2, 2), ('soft_restart', 1, 1, 1, S, 2, 2),
+         ('soft_restart', 2, 1, 1, S, 3, 3), ('soft_restart', 1, 1, 2, S, 2, 2), ('soft_restart', 2, 1, 1, G, 3, 2), ('add_new_direction', 2, 1, 1, G, 3, 2),
+         ('add_new_direction', 2, 1, 2, G, 3, 2), ('add_new_direction', 2, 1, 1, G, 3, 3)]
+    for (action, n, m, hi, preset, num_pts, npt_so_far) in combos:
+        hs.append(Harness("action[%s,n=%d,m=%d,npt=%d/%d,samples<=%d]" % (action, n, m, npt_so_far, num_pts, hi), 'dfverif.step', 'body_action',
+                          params=dict(action=action, n=n, m=m, nsample_hi=hi, preset=preset, num_pts=num_pts, npt_so_far=npt_so_far),
+                          cfg=core.Cfg(qtimeout_ms=20000, uflin=True, max_depth=3000),
+                          functions=['controller.Controller.geometry_step', 'controller.Controller.soft_restart', 'controller.Controller.add_new_direction_while_growing',
+                                     'controller.Controller.evaluate_objective', 'controller.Controller.choose_point_to_replace',
+                                     'model.Model.change_point', 'model.Model.add_new_sample', 'model.Model.save_point'],
+                          bounds="one call of Controller.%s from any valid state; n=%d, m=%d, %d of %d points, up to %d samples per point, budget may end at any sample" % (
+                              action, n, m, npt_so_far, num_pts, hi),
+                          assumptions=["INV: " + s_ for s_ in INV[:3]] + ["stub: " + s_ for s_ in STUBS[:8]], home='STEP', nproc=None,
+                          wall_budget=(300 if tier == 'quick' else 900), max_replays=3))
     return hs
 
 
